@@ -254,6 +254,39 @@ def _check_tree(data: dict, lab: Labels) -> None:
     for s in specs:
         exp = "".join(f"/@{'root' if f is None else f}[{0 if i is None else i}]{c}" for f, i, c in chains[id(s)])
         require(b.of(s).xpath == exp, "calculate_xpath-path", f"node {idx[id(s)]}: {b.of(s).xpath!r} expected {exp!r}")
+    # ---- a change below the root's children, then the calculation again: every node of the tree as
+    # it is now carries the path of its present chain
+    from pbt import legacy_engine as E
+
+    for round_no, sel in enumerate(data.get("recalc", [])):
+        deep = [(c, fn, i, p) for p in E.subtree(root) for c, fn, i in E.kids(p) if p is not root]
+        if not deep:
+            break
+        c, fn, i, p = deep[sel % len(deep)]
+        how = (sel // 7) % 3
+        try:
+            with warnings.catch_warnings():
+                warnings.simplefilter("ignore", DeprecationWarning)
+                if how == 0 and fn in ("items", "lst", "oseq", "opt"):
+                    c.replace_with(None)  # later siblings move up
+                    lab.tag("recalc-after-removal")
+                elif how == 1:
+                    c.replace_with(L.cls("LLeaf")(v=4, origin=c.origin))
+                    lab.tag("recalc-after-replace_with")
+                else:
+                    c.replace(origin=c.origin) if type(c).__name__ == "LLeafB" else c.replace(v=(int(c.v) + 1) % 5)
+                    lab.tag("recalc-after-replace")
+        except E.documented_errors():
+            continue
+        require(root.calculate_xpath() is True, "calculate_xpath-root", f"round {round_no + 2}")
+
+        def walk(n: Any, prefix: str) -> None:
+            require(n.xpath == prefix, "calculate_xpath-path-after-change",
+                    f"round {round_no + 2}: {n.xpath!r} expected {prefix!r}")
+            for k, kfn, ki in E.kids(n):
+                walk(k, prefix + f"/@{kfn}[{0 if ki is None else ki}]{type(k).__name__}")
+
+        walk(root, f"/@root[0]{type(root).__name__}")
     lab.nontrivial = nt and depth >= 3
     del live_idx
 
@@ -325,6 +358,7 @@ def st_case(ctx: Ctx):
         "xpaths": st.lists(st.one_of(raw, derived, derived, subseq, subseq), min_size=5, max_size=5),
         "bad": st.lists(st.integers(0, 30), min_size=2, max_size=2), "thorough": st.just(ctx.thorough),
         "late": st.one_of(st.none(), st.none(), st.none(), st.integers(0, 3)),
+        "recalc": st.lists(st.integers(0, 10_000), max_size=2),
     })
 
 
